@@ -95,6 +95,12 @@ LONG = (
     b"P" * 147,
     b"Q" * 148,
     b"R" * 222,
+    # long stems that agree on their whole first block (and beyond)
+    b"S" * 80 + b"c",
+    b"S" * 80 + b"f",
+    b"S" * 80 + b"m",
+    b"S" * 74 + b"z",
+    b"S" * 74,
 )
 # stems are alphabet entries + b"|": lengths 73,74,75,147,148,149,223 for the long ones
 
